@@ -44,6 +44,9 @@ def dispatch(prop, tier):
     if prop == 'C13':
         from harness.checks import robust
         return robust.run_c13(tier)
+    if prop == 'C12':
+        from harness.checks import accept
+        return accept.run_c12(tier)
     raise core.Infra('no check registered for %s' % prop)
 
 
